@@ -37,7 +37,7 @@ BOUND = {k: v + "; plus: " + "list names with a dot next to their stem; a user-w
 
 LISTS = ["c", "c1", "d"]
 VARIANTS = ["plain", "filter", "rand", "randseed", "randseedref", "multi", "rank", "or_other", "shared", "search",
-            "multi_or_other", "unused", "fromrepeat", "fromrepeat-filter", "randfalse", "randfalseseed", "randfilter", "multirandfalse", "randseedexpr", "randseedexpr2", "search_rand", "search_multi", "fromrepeat-sibling", "fromrepeat-inside", "search-after-token", "search-before-token", "search-nolabel"]
+            "multi_or_other", "unused", "fromrepeat", "fromrepeat-filter", "randfalse", "randfalseseed", "randfilter", "multirandfalse", "randseedexpr", "randseedexpr2", "search_rand", "search_multi", "fromrepeat-sibling", "fromrepeat-inside", "search-after-token", "search-before-token", "search-nolabel", "search-nolabel-last", "search-nolabel-last-trq"]
 REJECT_VARS = {"search_rand", "search_multi"}  # a search() list may not be shared with a select that is not using search()
 
 
@@ -223,6 +223,15 @@ def build_lists(case):
         for c_ in choices:
             if c_["list_name"] == "c" and c_["name"].endswith("_0") and case["lab"] == "plain":
                 c_.pop("label", None)
+    elif v in ("search-nolabel-last", "search-nolabel-last-trq"):
+        # the label-less choice comes after labelled ones; -trq: the questions of the form are translated, the list is not
+        sel["appearance"] = "search('f')"
+        mine = [c_ for c_ in choices if c_["list_name"] == "c"]
+        if case["lab"] == "plain" and len(mine) > 1:
+            mine[-1].pop("label", None)
+        if v.endswith("trq"):
+            sel.pop("label")
+            sel.update({"label::en": "S en", "label::fr": "S fr"})
     elif v == "search-after-token":
         sel["appearance"] = "minimal search('f')"
     elif v == "search-before-token":
@@ -278,7 +287,7 @@ def check_lists(case, wb, out, viol):
     other_lists = set()
     if v in ("or_other", "multi_or_other"):
         other_lists.add("c")
-    searched = {"c"} if v in ("search", "search-after-token", "search-before-token", "search-nolabel") else set()
+    searched = {"c"} if v.startswith("search-") or v == "search" else set()
     itx = {}
     for lg, d, texts in obs.itext:
         for tid, vals in texts:
@@ -396,7 +405,7 @@ def check_lists(case, wb, out, viol):
             ok = val is not None and lab is not None and val.get("ref") == "rq" and lab.get("ref") == "rq"
         if not ok:
             viol.append((f"itemset-from-repeat:{v}", f"{[dict(i.attrib) for i in its]}"))
-    elif v in ("search", "search-after-token", "search-before-token", "search-nolabel"):
+    elif v in ("search", "search-after-token", "search-before-token", "search-nolabel", "search-nolabel-last", "search-nolabel-last-trq"):
         items = s_el.findall(O.X + "item")
         exp = [c for c in choices if c["list_name"] == "c"]
         got = [(it.find(O.X + "value").text) for it in items]
@@ -409,8 +418,8 @@ def check_lists(case, wb, out, viol):
                 txt = {lg: (itx.get(tid, {}).get(lg, {}).get(None).text if itx.get(tid, {}).get(lg, {}).get(None) is not None else None) for lg in ("en", "fr")}
                 if txt != {"en": c["label::en"], "fr": c["label::fr"]}:
                     viol.append(("search-inline-label-itext", f"{txt}"))
-            elif (lab.text or "") != c.get("label", ""):
-                viol.append(("search-inline-label", f"{lab.text!r} want {c.get('label', '')!r}"))
+            elif lab is None or lab.get("ref") is not None or (lab.text or "") != c.get("label", ""):
+                viol.append(("search-inline-label", f"choice {c['name']}: {None if lab is None else (lab.get('ref') or lab.text)!r} want {c.get('label', '')!r}"))
     else:
         check_itemset(s_el, "c", expns[v], "s")
     if v in ("shared", "multi_or_other"):
